@@ -302,6 +302,11 @@ Section Labelled.
     - split; [|split; [reflexivity|split; [reflexivity|simpl; auto]]].
       unfold compile_op. rewrite labels_unfold. reflexivity.
   Qed.
+  Lemma regshape_quiet l : Forall regshape l -> quiet l.
+  Proof.
+    clear Hbq Hbj. clear bodies h0 tb0 n0 cid.
+    intro H. eapply Forall_impl; [|exact H]. intros i; destruct i; simpl; auto; try contradiction; lia.
+  Qed.
   Lemma nopar_quiet rb o : par_of rb o = None -> lab_ok o ->
     quiet (compile_op mp rb o) /\ issuedL o = 0%Z.
   Proof.
@@ -310,6 +315,8 @@ Section Labelled.
     destruct o; simpl in Hp, Hl; try discriminate; try (repeat constructor; simpl; auto; fail).
     - destruct locked, exsec; repeat constructor.
     - repeat constructor; unfold RN, RC; simpl; lia.
+    - apply regshape_quiet, regshape_construct.
+    - apply regshape_quiet, regshape_unregister.
   Qed.
 
   Definition Qc (c : config) : Prop :=
@@ -602,7 +609,9 @@ Section Labelled.
 
   Lemma compile_op_nonempty rb o : compile_op mp rb o <> [].
   Proof.
-    destruct o; try discriminate. destruct locked, exsec; discriminate.
+    destruct o; try discriminate.
+    - destruct locked, exsec; discriminate.
+    - unfold compile_op, construct_prog, register_names_prog. destruct (ctor_prog mp nc); discriminate.
   Qed.
 
   Lemma own_step c t c' pd :
